@@ -164,6 +164,71 @@ def task(version, fixed, label):
     return chk.to_dict()
 
 
+def task_ctx4(digits, d4=None):
+    """v4: the score does not depend on the ambient decimal context.  The real constructor with
+    REAL scoring inside one macrovector fork (C02's case split; a seeded sample of forks), once in
+    the default context and once per alternative context; z3 decides equality of the scores."""
+    try:
+        return _task_ctx4(digits, d4)
+    except MemoryError:
+        why = "memory cap"
+    except Exception as e:  # noqa: BLE001
+        if "out of memory" not in repr(e):
+            raise
+        why = "solver out of memory"
+    return {"extra": {"v4_context_forks_declined": 1, "v4_context_forks_declined_why": ["%s %r: %s" % ("".join(str(x) for x in digits), d4, why)]}}
+
+
+def _task_ctx4(digits, d4=None):
+    from . import score4
+
+    chk = Check("C19")
+    sess = Session(npat=512)
+    vars_ = sess.assign_vars(4)
+    m, vc = sess.m, sess.vc
+    smod, d, e, items = score4.spec_macrovector(sess, vars_)
+    g = score4.mv_guard(sess, items, digits)
+    label = "v4 real scoring mv=" + "".join(str(x) for x in digits)
+    if d4 is not None:
+        du, raised = sess.call(smod.globals["distance"], [e, smod.globals["EQ4_MAX"][digits[3]], ["SC", "SI", "SA"]])
+        g2 = m.AND(g, m.NOT(m.or_all([vc.guard_eq(du, k) for k in d4[1]]))) if isinstance(d4, tuple) else m.AND(g, vc.guard_eq(du, d4))
+        if m.is_sat(g2, "vacuity") is not True:
+            chk.absorb(sess)
+            return chk.to_dict()
+        g = g2
+        label += "[d4=%s]" % (d4 if not isinstance(d4, tuple) else "rest")
+    m.restrict(g, nsamples=128)
+    vec = sess.vector_from_vars(4, vars_)
+    mod = sess.load("cvss")
+    C.set_epoch(1)
+    cls = mod.globals["CVSS4"]
+
+    def mk_replay(model, what):
+        return {"kind": "c19", "version": 4, "vector": sess.vector_string(4, model), "what": what}
+
+    obj, raised = sess.call(cls, [vec])
+    base = O.items_of(O.call_ok(sess, chk, obj, "scores", label=label))
+    ctxs = [("ROUND_DOWN", 28), ("ROUND_UP", 28)] if C.tier() == "quick" else [(r, 28) for r in ("ROUND_DOWN", "ROUND_UP", "ROUND_FLOOR", "ROUND_CEILING", "ROUND_HALF_DOWN", "ROUND_05UP")] + [("ROUND_HALF_EVEN", 60)]
+    for rnd, prec in ctxs:
+        ctx = decimal.Context(prec=prec, rounding=getattr(decimal, rnd))
+        with decimal.localcontext(ctx):
+            o2, raised = sess.call(cls, [vec])
+            for cond, exc in raised:
+                nm = type(exc).__name__ if isinstance(exc, BaseException) else exc.cls.name
+                O.must_not(sess, chk, vc.c_any(cond), "%s: constructor raises %s under decimal context (%s, prec %d)" % (label, nm, rnd, prec), mk_replay)
+            s2 = O.items_of(O.call_ok(sess, chk, o2, "scores", label=label))
+
+        def mk_r(model, what, rnd=rnd, prec=prec):
+            r = mk_replay(model, what)
+            r["context"] = [rnd, prec]
+            return r
+
+        O.must_hold(sess, chk, O.eq_cond(sess, base[0], s2[0]), "%s: score the same under ambient decimal context (%s, prec %d)" % (label, rnd, prec), mk_r)
+    chk.extra["v4_context_forks"] = 1
+    chk.absorb(sess)
+    return chk.to_dict()
+
+
 def task_reject_paths(version):
     """frame condition on the rejecting paths: one parse step from an arbitrary state over the
     whole field alphabet, the code around the loop, check_mandatory"""
@@ -254,11 +319,21 @@ def main():
     for v in (2, 3, 4):
         tasks.append(("task_reject_paths", (v,)))
     tasks.append(("task_extractor", (0,)))
+    from . import c09
+
+    f4, f4total = c09.fork4_tasks(budget_quick=350, budget_thorough=3000, seed_offset=19)
+    for t in f4:
+        tasks.append(("task_ctx4", t))
     for r in C.run_named_tasks("harness.c19", tasks):
         chk.absorb_dict(r)
+    nd = int(chk.extra.get("v4_context_forks_declined", 0))
+    chk.extra["v4_context_fork_tasks"] = "%d of %d drawn, %d declined (memory)" % (len(f4), f4total, nd)
+    if f4 and nd * 2 > len(f4):
+        chk.inconclusive.append("v4 decimal contexts: %d of %d sampled forks exceeded the memory cap" % (nd, len(f4)))
     hs = chk.extra.get("hash_order_dependent_iterations", [])
     chk.input_model = ("M-ASSIGN with real scoring (v2 27, v3 48 sessions; v4 abstracted score - its scoring paths are executed in C02): constructor, every accessor, from_rh_vector under effect logging; "
                        "then the constructor re-executed under alternative ambient decimal contexts and the scores compared by the solver; parse step over the whole field alphabet from an arbitrary state (rejecting paths); the text extractor")
+    chk.input_model += "; v4: the real constructor with REAL scoring inside a seeded sample of macrovector forks (%s), re-executed under alternative decimal contexts (quick: ROUND_DOWN, ROUND_UP; thorough: seven contexts)" % chk.extra["v4_context_fork_tasks"]
     chk.bounds = ["decimal contexts: the finite list in evidence (rounding modes x precisions >= 28); no perturbation lemma for arbitrary precision",
                   "thread interleavings and call histories are NOT explored: the claim is the frame condition (no path stores into module-level or ambient state, no path prints), from which schedule- and history-independence follow by a written non-interference argument",
                   "PYTHONHASHSEED: only through logged hash-order-dependent iterations: %r (the extractor's result order; the property treats it as a collection)" % (hs,)]
